@@ -1,24 +1,17 @@
-# Per-property harness configuration for vcheck.
-#   pkg     harness package under /verif/harness (compiled inside the olla module via -overlay)
-#   sync    'all' => swap sync / sync/atomic / xsync imports and go statements for the shims in every non-test file
-#   clock   comma list of repo-relative dirs/files whose time.* calls go through vclock
-#   rand    comma list of dirs whose math/rand goes through vrand
-#   shards  worker processes
-CHECKS = {
-    "C06": dict(pkg="c06", level="model_checking", sync="all", rand="internal/adapter/balancer", shards=8,
-                engine="ENUM+SCHED",
-                technique="bounded-exhaustive enumeration of endpoint lists/RNG cells/count vectors + preemption-bounded exhaustive interleaving exploration (stateless DFS under a controlled scheduler) of the real selectors",
-                text="Every endpoint list n<=4 (5 thorough) x every RNG cell, every round-robin window, every connection-count vector, and every interleaving (round-robin: unbounded; least-connections: <=2/3 preemptions) of concurrent Select/Increment/Decrement run on the real selectors built by balancer.Factory; tier rule, exact fairness and minimal-at-some-moment judged on each.",
-                note="Scheduling points at sync/atomic/xsync operations only; xsync modelled as linearizable; math/rand owned via a seam in priority.go; n, k and thread counts bounded as stated in evidence.bounds."),
-    "C08": dict(pkg="c08", level="model_checking", sync="all", shards=16,
-                clock="internal/adapter/health/circuit_breaker.go,internal/adapter/proxy/olla,internal/adapter/unifier/circuit_breaker.go",
-                inject={"internal/adapter/proxy/olla/zz_verif_export.go": "harness/inject/olla_export.go"},
-                engine="OPS+SCHED",
-                technique="exhaustive enumeration of caller-consistent operation/time histories on the real breakers under a frozen virtual clock against a reference automaton (plus recovery liveness from every reached state), and preemption-bounded exhaustive interleaving exploration of racing callers",
-                text="All histories to depth 7 (9 thorough) over ask/outcome/time events for the health, engine and unifier breakers (4 configurations) are executed on the real objects; every ask answer must be explained by the statement's reference automaton and every reached state must close again once calls succeed. Half-open admission races and failure||success races are explored over all interleavings within 3 preemptions (unbounded thorough).",
-                note="Clock seam via build-time rewrite of time.Now/Since in the three breaker files; engine breaker reached through Service.GetCircuitBreaker via an overlay-injected in-package accessor; boundaries avoided by the time alphabet."),
-    "C02": dict(pkg="c02", level="fault_enumeration", shards=12, engine="STACK",
-                technique="exhaustive fault-assignment enumeration over the assembled system (real sockets, byte-recording scripted backends)",
-                text="Every assignment of backend fault behaviours (ok, refuse, close before headers, close/RST after headers or k body bytes, garbage) to 1..3 endpoints x both engines x three proxy profiles x JSON/SSE responses (x three balancers thorough) is run through the booted olla; the client's bytes must come from exactly one attempt and no attempt may follow delivered bytes.",
-                note="Kernel-level timing of resets is not controlled (oracle insensitive); interleavings inside net/http are not explored."),
-}
+# Per-property harness configuration: loaded from harness/<pkg>/check.json.
+#   id        property id (C01..C20)
+#   pkg       harness package directory under /verif/harness (compiled inside the olla module via -overlay)
+#   level     evidence level: model_checking | fault_enumeration | exploration
+#   sync      "all" => swap sync / sync/atomic / xsync imports and go statements for the shims in every non-test file
+#   clock     comma list of repo-relative dirs/files whose time.Now/Since/Until/Sleep/After/NewTimer/AfterFunc go through vclock
+#   rand      comma list of dirs whose math/rand goes through vrand
+#   extrafiles comma list of absolute files outside the repo (module cache) to clock-rewrite
+#   inject    {repo-relative path: /verif-relative source} extra files placed inside repo packages by the overlay
+#   shards    worker processes (each gets -shard i/n)
+#   budget    {"quick": "60s", "thorough": "12m"} internal time budget passed to the harness
+#   engine, technique, text, note   MANIFEST fields
+import json, glob, os
+CHECKS = {}
+for f in sorted(glob.glob(os.path.join(os.path.dirname(os.path.abspath(__file__)), "harness", "*", "check.json"))):
+    c = json.load(open(f))
+    CHECKS[c["id"]] = c
